@@ -263,7 +263,9 @@ Definition queueable (e : ep) (epo : N) : bool := (e_repoch e <? 2) || N.eqb epo
 
 (* outcome of one record: (endpoint, carried handshake data, retransmission, received ACK) *)
 Definition process_record (lease : bool) (e : ep) (r : rec) : ep * bool * bool * option (list frag) :=
-  if N.eqb (r_ep r) 0 || can_open e (r_ep r) then
+  (* conn.go bufferHandshakeRecord: once established, unprotected records are dropped before reassembly *)
+  if N.eqb (r_ep r) 0 && e_est e then (e, false, false, None)
+  else if N.eqb (r_ep r) 0 || can_open e (r_ep r) then
     match r_body r with
     | Hs ht m fo fl tl =>
         let '(e1, retr) := push e (m, ht, fo, fl, tl, r_ep r) in
